@@ -122,7 +122,9 @@ OnReset(m, e, i) ==
   [Init0 EXCEPT !.viol = m.viol, !.nviol = m.nviol, !.hits = m.hits,
                 !.beh = Get(e, "beh", -1), !.behaviours = m.behaviours + 1]
 
-OnArenaNew(m, e, i) == [m EXCEPT !.ar = @ @@ (ArenaOf(e) :> NewArena)]
+OnArenaNew(m, e, i) ==
+  LET a == ArenaOf(e) IN
+  [m EXCEPT !.ar = [x \in DOMAIN m.ar \cup {a} |-> IF x = a THEN NewArena ELSE m.ar[x]]]
 
 OnAlloc(m, e, i) ==
   LET a == ArenaOf(e)  o == e.o
@@ -180,13 +182,21 @@ OnCbBegin(m, e, i) ==
   IN [m1 EXCEPT !.cb = e.kind, !.cbArena = a, !.cbMutated = FALSE,
                 !.ar[a].dead = {}, !.ar[a].revived = FALSE]
 
+\* The callback body is over and the callback is unwinding (panic, or Err from a fallible entry
+\* point).  Entry points that consume the arena (new, try_new, map_root, try_map_root) drop it
+\* while the unwind leaves them: C11 "a failed constructor releases everything".
+OnCbUnwind(m, e, i) ==
+  LET a == ArenaOf(e) IN
+  [Hit(m, "C11.r1") EXCEPT !.cb = "", !.ar[a].dropping = e.consumes]
+
 OnCbEnd(m, e, i) ==
   LET a == ArenaOf(e)
+      consumed == Get(e, "consumed", FALSE)
       before == m.ar[a].phase
-      m1 == IF Has(e, "phase") THEN ObserveState(m, e, i, TRUE) ELSE m
+      m1 == IF Has(e, "phase") /\ ~consumed THEN ObserveState(m, e, i, TRUE) ELSE m
       after == m1.ar[a].phase
       \* C08: a callback never changes the phase, except Marked -> Marking
-      m2 == Check(m1, Has(e, "phase") /\ ~e.panicked,
+      m2 == Check(m1, Has(e, "phase") /\ ~e.panicked /\ ~consumed,
                   after = before \/ (before = "Marked" /\ after = "Marking"), "C08", "r3", i, 0)
       \* C06 r1: none of the barrier paths panics
       m3 == Check(m2, m.cbMutated \/ e.panicked, ~e.panicked \/ e.msg = "injected", "C06", "r1", i, 0)
@@ -373,6 +383,7 @@ Step(m0, e, i) ==
     [] ev = "barrier"    -> OnBarrier(m, e, i)
     [] ev = "cb_begin"   -> OnCbBegin(m, e, i)
     [] ev = "cb_end"     -> OnCbEnd(m, e, i)
+    [] ev = "cb_unwind"  -> OnCbUnwind(m, e, i)
     [] ev = "call_begin" -> OnCallBegin(m, e, i)
     [] ev = "call_end"   -> OnCallEnd(m, e, i)
     [] ev = "destruct"   -> OnDestruct(m, e, i)
